@@ -1207,3 +1207,82 @@ func isBoolTerm(t *Term) bool {
 	}
 	return false
 }
+
+// firstIteCond returns the condition of some gated join inside t, or nil.
+func firstIteCond(t *Term) *Term {
+	var found *Term
+	Walk(t, func(x *Term) bool {
+		if found != nil {
+			return false
+		}
+		if x.Op == "ite" {
+			// prefer the innermost-leftmost condition that itself contains no ite
+			if c := firstIteCond(x.Args[0]); c != nil {
+				found = c
+			} else {
+				found = x.Args[0]
+			}
+			return false
+		}
+		return true
+	})
+	return found
+}
+
+// Assume rebuilds t under the assumption that boolean term c has value val.
+func Assume(t, c *Term, val bool) *Term {
+	if t == nil {
+		return nil
+	}
+	if t.Key() == c.Key() {
+		return Bool(val)
+	}
+	if len(t.Args) == 0 {
+		return t
+	}
+	changed := false
+	args := make([]*Term, len(t.Args))
+	for i, a := range t.Args {
+		args[i] = Assume(a, c, val)
+		if args[i] != a {
+			changed = true
+		}
+	}
+	if !changed {
+		return t
+	}
+	return Rebuild(t, args)
+}
+
+// DeepCases splits t on every gated-join condition occurring anywhere inside
+// it, returning ite-free leaves with the conditions assumed. nil if more than
+// max leaves would result.
+func DeepCases(t *Term, max int) []TermCase {
+	var out []TermCase
+	var rec func(t *Term, conds []*Term) bool
+	rec = func(t *Term, conds []*Term) bool {
+		c := firstIteCond(t)
+		if c == nil {
+			out = append(out, TermCase{append([]*Term{}, conds...), t})
+			return max <= 0 || len(out) <= max
+		}
+		for _, val := range []bool{true, false} {
+			lit := c
+			if !val {
+				lit = Not(c)
+			}
+			cs := append(append([]*Term{}, conds...), lit)
+			if condsContradict(cs) {
+				continue
+			}
+			if !rec(Assume(t, c, val), cs) {
+				return false
+			}
+		}
+		return true
+	}
+	if !rec(t, nil) {
+		return nil
+	}
+	return out
+}
